@@ -202,8 +202,42 @@ fn guarded(rep: &mut Report, kind: &str, case: &dyn Fn() -> String, f: impl FnOn
 // ------------------------------------------------------------------------------ Bounded
 /// compare every observer of `rb` with the model; returns false on the first disagreement
 fn observe_bounded<S: SliceMut<Element = i64>>(rb: &mut Option<Bounded<S>>, model: &VecDeque<i64>, cap: usize, base_ptr: Option<*const i64>, after: Op, rep: &mut Report, case: &dyn Fn() -> String) -> bool {
-    let r = rb.as_ref().unwrap();
     let k = op_kind(after);
+    // representation first: an invalid (start, len) must be reported before any other observer
+    // runs on it (they would index out of bounds)
+    {
+        let taken = rb.take().unwrap();
+        let (start, len, data) = unsafe { taken.into_raw_parts() };
+        let mut ok = true;
+        let mut msg = String::new();
+        {
+            let sl = dasp_ring_buffer::Slice::slice(&data);
+            if !(start < cap) || len > cap || len != model.len() || sl.len() != cap {
+                ok = false;
+                msg = format!("raw parts start={} len={} storage_len={} (cap {} model len {})", start, len, sl.len(), cap, model.len());
+            } else {
+                for (i, m) in model.iter().enumerate() {
+                    if sl[(start + i) % cap] != *m {
+                        ok = false;
+                        msg = format!("raw storage[(start {} + {}) % {}] = {}, model {}", start, i, cap, sl[(start + i) % cap], m);
+                        break;
+                    }
+                }
+                if let Some(p) = base_ptr {
+                    if sl.as_ptr() != p {
+                        ok = false;
+                        msg = format!("backing storage moved: {:?} -> {:?}", p, sl.as_ptr());
+                    }
+                }
+            }
+        }
+        if !ok {
+            rep.violation(&format!("bounded|after_{}|raw_parts", k), msg, case());
+            return false;
+        }
+        *rb = Some(Bounded::from_raw_parts(start, len, data));
+    }
+    let r = rb.as_ref().unwrap();
     macro_rules! fail {
         ($what:expr, $($fmt:tt)*) => {{
             rep.violation(&format!("bounded|after_{}|{}", k, $what), format!($($fmt)*), case());
@@ -238,37 +272,6 @@ fn observe_bounded<S: SliceMut<Element = i64>>(rb: &mut Option<Bounded<S>>, mode
     if !s0.iter().chain(s1.iter()).eq(model.iter()) {
         fail!("slices", "slices() = {:?} ++ {:?}, model {:?}", s0, s1, model);
     }
-    // representation: round-trip through raw parts
-    let taken = rb.take().unwrap();
-    let (start, len, data) = unsafe { taken.into_raw_parts() };
-    let mut ok = true;
-    let mut msg = String::new();
-    {
-        let sl = dasp_ring_buffer::Slice::slice(&data);
-        if !(start < cap) || len > cap || len != model.len() || sl.len() != cap {
-            ok = false;
-            msg = format!("raw parts start={} len={} storage_len={} (cap {} model len {})", start, len, sl.len(), cap, model.len());
-        } else {
-            for (i, m) in model.iter().enumerate() {
-                if sl[(start + i) % cap] != *m {
-                    ok = false;
-                    msg = format!("raw storage[(start {} + {}) % {}] = {}, model {}", start, i, cap, sl[(start + i) % cap], m);
-                    break;
-                }
-            }
-            if let Some(p) = base_ptr {
-                if sl.as_ptr() != p {
-                    ok = false;
-                    msg = format!("backing storage moved: {:?} -> {:?}", p, sl.as_ptr());
-                }
-            }
-        }
-    }
-    if !ok {
-        rep.violation(&format!("bounded|after_{}|raw_parts", k), msg, case());
-        return false;
-    }
-    *rb = Some(Bounded::from_raw_parts(start, len, data));
     true
 }
 
@@ -468,8 +471,35 @@ fn run_bounded<S: SliceMut<Element = i64>>(store: &'static str, data: S, cap: us
 
 // ------------------------------------------------------------------------------ Fixed
 fn observe_fixed<S: SliceMut<Element = i64>>(rb: &mut Option<Fixed<S>>, model: &VecDeque<i64>, n: usize, after: Op, rep: &mut Report, case: &dyn Fn() -> String) -> bool {
-    let r = rb.as_ref().unwrap();
     let k = op_kind(after);
+    // representation first: an invalid `first` must be reported before any other observer runs on
+    // it (iter_loop() would skip ~2^64 elements, slices() would panic, push would write out of
+    // bounds)
+    {
+        let taken = rb.take().unwrap();
+        let (first, data) = taken.into_raw_parts();
+        let mut msg = None;
+        {
+            let sl = dasp_ring_buffer::Slice::slice(&data);
+            if !(first < n) || sl.len() != n {
+                msg = Some(format!("raw parts first={} storage_len={} (N {})", first, sl.len(), n));
+            } else {
+                for i in 0..n {
+                    if sl[(first + i) % n] != model[i] {
+                        msg = Some(format!("raw storage[(first {} + {}) % {}] = {}, model {}", first, i, n, sl[(first + i) % n], model[i]));
+                        break;
+                    }
+                }
+            }
+        }
+        if let Some(m) = msg {
+            rep.violation(&format!("fixed|after_{}|raw_parts", k), m, case());
+            // cannot rebuild with an invalid `first`; stop this history
+            return false;
+        }
+        *rb = Some(Fixed::from_raw_parts(first, data));
+    }
+    let r = rb.as_ref().unwrap();
     macro_rules! fail {
         ($what:expr, $($fmt:tt)*) => {{
             rep.violation(&format!("fixed|after_{}|{}", k, $what), format!($($fmt)*), case());
@@ -503,33 +533,7 @@ fn observe_fixed<S: SliceMut<Element = i64>>(rb: &mut Option<Fixed<S>>, model: &
     if !s0.iter().chain(s1.iter()).eq(model.iter()) {
         fail!("slices", "slices() = {:?} ++ {:?}, model {:?}", s0, s1, model);
     }
-    let taken = rb.take().unwrap();
-    let (first, data) = taken.into_raw_parts();
-    let mut msg = None;
-    {
-        let sl = dasp_ring_buffer::Slice::slice(&data);
-        if !(first < n) || sl.len() != n {
-            msg = Some(format!("raw parts first={} storage_len={} (N {})", first, sl.len(), n));
-        } else {
-            for i in 0..n {
-                if sl[(first + i) % n] != model[i] {
-                    msg = Some(format!("raw storage[(first {} + {}) % {}] = {}, model {}", first, i, n, sl[(first + i) % n], model[i]));
-                    break;
-                }
-            }
-        }
-    }
-    match msg {
-        Some(m) => {
-            rep.violation(&format!("fixed|after_{}|raw_parts", k), m, case());
-            // cannot rebuild with an invalid `first`; stop this history
-            false
-        }
-        None => {
-            *rb = Some(Fixed::from_raw_parts(first, data));
-            true
-        }
-    }
+    true
 }
 
 fn step_fixed<S: SliceMut<Element = i64>>(rb: &mut Option<Fixed<S>>, model: &mut VecDeque<i64>, n: usize, op: Op, ids: &mut Ids, rep: &mut Report, case: &dyn Fn() -> String) -> bool {
@@ -702,6 +706,8 @@ fn fixed_content(n: usize, first: usize, ids: &mut Ids) -> (Vec<i64>, VecDeque<i
 }
 
 const STORES: [&str; 4] = ["array", "vec", "boxed", "mutslice"];
+/// storage kinds of the Miri stage: additionally a box with uninitialised dead slots
+const MIRI_STORES: [&str; 5] = ["array", "vec", "boxed", "mutslice", "uninit"];
 
 fn with_array<const N: usize>(v: &[i64]) -> [i64; N] {
     let mut a = [0i64; N];
@@ -717,6 +723,19 @@ fn dispatch_bounded(store: &'static str, content: Vec<i64>, cap: usize, start: u
             let mut c = content;
             run_bounded(store, &mut c[..], cap, start, len, model, ops, ids, true, rep)
         }
+        "uninit" => {
+            // Backing storage whose non-live slots are genuinely uninitialised (the documentation
+            // of `Bounded::from_raw_parts` explicitly allows that). Only used under Miri, where a
+            // typed read of such a slot is reported; the monitor itself only ever looks at live
+            // slots.
+            let mut b: Box<[std::mem::MaybeUninit<i64>]> = Box::new_uninit_slice(cap);
+            for i in 0..len {
+                let slot = (start + i) % cap;
+                b[slot].write(content[slot]);
+            }
+            let b: Box<[i64]> = unsafe { b.assume_init() };
+            run_bounded(store, b, cap, start, len, model, ops, ids, true, rep)
+        }
         "array" => {
             macro_rules! arr {
                 ($($n:literal),*) => { match cap { $($n => run_bounded(store, with_array::<$n>(&content), cap, start, len, model, ops, ids, false, rep),)* _ => run_bounded("vec", content, cap, start, len, model, ops, ids, true, rep) } };
@@ -729,7 +748,7 @@ fn dispatch_bounded(store: &'static str, content: Vec<i64>, cap: usize, start: u
 fn dispatch_fixed(store: &'static str, content: Vec<i64>, n: usize, first: usize, model: &VecDeque<i64>, ops: &[Op], ids: &mut Ids, rep: &mut Report) -> bool {
     match store {
         "vec" => run_fixed(store, content, n, first, model, ops, ids, rep),
-        "boxed" => run_fixed(store, content.into_boxed_slice(), n, first, model, ops, ids, rep),
+        "boxed" | "uninit" => run_fixed(store, content.into_boxed_slice(), n, first, model, ops, ids, rep),
         "mutslice" => {
             let mut c = content;
             run_fixed(store, &mut c[..], n, first, model, ops, ids, rep)
@@ -1000,7 +1019,7 @@ fn replay(case: &str, rep: &mut Report) {
     let start: usize = m["start"].parse().unwrap();
     let len: usize = m["len"].parse().unwrap();
     let ops: Vec<Op> = m["ops"].split(',').filter(|s| !s.is_empty()).map(dec_op).collect();
-    let store: &'static str = STORES.iter().copied().find(|s| *s == m["store"]).unwrap_or("vec");
+    let store: &'static str = MIRI_STORES.iter().copied().find(|s| *s == m["store"]).unwrap_or("vec");
     let mut ids = Ids(0);
     eprintln!("CASE {}", case);
     match m["kind"].as_str() {
@@ -1039,11 +1058,11 @@ fn main() {
         "miri" => {
             LEAN.store(true, Ordering::Relaxed);
             // sanitizer-sized: the step enumeration for cap <= 3 is dealt round-robin to the shards
-            enumerate_steps(1..=3, &STORES, (cli.shard, cli.nshards), &mut rep);
+            enumerate_steps(1..=3, &MIRI_STORES, (cli.shard, cli.nshards), &mut rep);
             if cli.shard == 0 {
                 check_constructors(&mut rep);
             }
-            random_histories(cli.seed, 100 + cli.shard, cli.get_u64("hist", 40), 6, 30, 1, &STORES, &mut rep);
+            random_histories(cli.seed, 100 + cli.shard, cli.get_u64("hist", 40), 6, 30, 1, &MIRI_STORES, &mut rep);
         }
         "asan" => {
             enumerate_steps(1..=4, &["vec", "boxed", "mutslice"], (0, 1), &mut rep);
